@@ -101,11 +101,29 @@ impl Op {
 /// Result of an operation (also the model's)
 #[derive(Clone, Debug, PartialEq, Eq)]
 enum Res {
+    /// a private result list, converted to `Vec` on the main thread after the
+    /// execution (reading it inside the thread would only add schedule points
+    /// on an unshared list)
+    Pending(ListBox),
     Unit,
     Opt(Option<u64>),
     Bool(bool),
     Len(usize),
     Vec(Vec<u64>),
+}
+
+#[derive(Clone)]
+struct ListBox(List<u64>);
+impl PartialEq for ListBox {
+    fn eq(&self, _: &ListBox) -> bool {
+        false
+    }
+}
+impl Eq for ListBox {}
+impl std::fmt::Debug for ListBox {
+    fn fmt(&self, f: &mut std::fmt::Formatter<'_>) -> std::fmt::Result {
+        write!(f, "<list>")
+    }
 }
 
 #[derive(Clone, Default)]
@@ -182,9 +200,9 @@ fn real_apply(op: Op, a: &List<u64>, b: &List<u64>, s: &Scripts) -> Res {
             b.push(7);
             Res::Unit
         }
-        Op::ConcatAB => Res::Vec(a.concat(b).to_vec()),
-        Op::ConcatBA => Res::Vec(b.concat(a).to_vec()),
-        Op::ConcatAA => Res::Vec(a.concat(a).to_vec()),
+        Op::ConcatAB => Res::Pending(ListBox(a.concat(b))),
+        Op::ConcatBA => Res::Pending(ListBox(b.concat(a))),
+        Op::ConcatAA => Res::Pending(ListBox(a.concat(a))),
         Op::ContainsA2 => Res::Bool(a.contains(&2)),
         Op::SwapA01 => {
             a.swap(0, 1);
@@ -496,7 +514,12 @@ fn run_program(p: &Program, init: Init, bound: usize, scripts: &Scripts) -> (Pro
                 std::mem::forget(b);
                 outcomes.insert(vcore::util::fnv_str(&format!("deadlock{sites:?}")));
             } else if x.panics.is_empty() {
-                let calls = calls.lock().unwrap().clone();
+                let mut calls = calls.lock().unwrap().clone();
+                for c in calls.iter_mut() {
+                    if let Res::Pending(l) = &c.res {
+                        c.res = Res::Vec(l.0.to_vec());
+                    }
+                }
                 let fa = a.to_vec();
                 let fb = b.to_vec();
                 // a value read through a stale pointer is garbage: that execution
@@ -542,7 +565,7 @@ impl Check for C16 {
         all_programs(cfg.tier).len().div_ceil(PER_UNIT)
     }
     fn case_timeout_s(&self, cfg: &Cfg) -> f64 {
-        cfg.tier.pick(30.0, 300.0)
+        cfg.tier.pick(120.0, 600.0)
     }
     fn preflight(&self, _cfg: &Cfg) -> Result<(), String> {
         c00sched::self_test()?;
@@ -720,6 +743,26 @@ fn hook_lint() -> Result<(), String> {
                 unhooked.push(i + 1);
             }
         }
+    }
+    // every raw slice over the element buffer must report its use
+    let mut unhooked_slices = vec![];
+    for (i, l) in lines.iter().enumerate() {
+        if l.contains("#[cfg(test)]") {
+            break;
+        }
+        let t = l.trim();
+        if t.starts_with("//") || !t.contains("from_raw_parts") {
+            continue;
+        }
+        let hooked = lines[i..(i + 25).min(lines.len())].iter().any(|x| x.contains("crate::verif::slice_use("));
+        if !hooked {
+            unhooked_slices.push(i + 1);
+        }
+    }
+    if !unhooked_slices.is_empty() {
+        return Err(format!(
+            "raw slice(s) over the list buffer without a use hook in src/value/list.rs at line(s) {unhooked_slices:?}: hooks must be extended"
+        ));
     }
     if unhooked.is_empty() {
         Ok(())
